@@ -230,7 +230,7 @@ class C01(Check):
         ii = sim.func("Simulator._initialise_integrator")
         y0 = [c for c in ast.walk(ii) if isinstance(c, ast.Call) and norm(c.func) == "tuple"]
         yt = norm(y0[0]) if y0 else ""
-        if yt in ("tuple((y0[k] for k in self.model.get_variable_names()))",):
+        if yt in ("tuple((y0[k] for k in self.model.get_variable_names()))", "tuple((self.y0[k] for k in self.model.get_variable_names()))"):
             self.holds("A2", SIM, "Simulator._initialise_integrator", "y0-tuple-order", y0[0], "y0 tuple follows get_variable_names()")
         else:
             self.violated("A2", SIM, "Simulator._initialise_integrator", "y0-tuple-order", y0[0] if y0 else ii, f"integrator start vector `{yt}` is not ordered by get_variable_names()",
